@@ -228,7 +228,8 @@ class GenericArrayView final {
   template <class OtherElementView, class OtherBufferType>
   bool Equals(
       const GenericArrayView<OtherElementView, OtherBufferType, kElementSize,
-                             kAddressableUnitSize> &other) const {
+                             kAddressableUnitSize,
+                             ElementViewParameterTypes...> &other) const {
     if (ElementCount() != other.ElementCount()) return false;
     for (::std::size_t i = 0; i < ElementCount(); ++i) {
       if (!(*this)[i].Equals(other[i])) return false;
@@ -238,7 +239,8 @@ class GenericArrayView final {
   template <class OtherElementView, class OtherBufferType>
   bool UncheckedEquals(
       const GenericArrayView<OtherElementView, OtherBufferType, kElementSize,
-                             kAddressableUnitSize> &other) const {
+                             kAddressableUnitSize,
+                             ElementViewParameterTypes...> &other) const {
     if (ElementCount() != other.ElementCount()) return false;
     for (::std::size_t i = 0; i < ElementCount(); ++i) {
       if (!(*this)[i].UncheckedEquals(other[i])) return false;
@@ -366,10 +368,12 @@ class GenericArrayView final {
 
 // Optionally prints a shorthand representation of a BitArray in a comment.
 template <class ElementView, class BufferType, ::std::size_t kElementSize,
-          ::std::size_t kAddressableUnitSize, class Stream>
+          ::std::size_t kAddressableUnitSize, class Stream,
+          typename... ElementViewParameterTypes>
 void WriteShorthandArrayCommentToTextStream(
     const GenericArrayView<ElementView, BufferType, kElementSize,
-                           kAddressableUnitSize> *array,
+                           kAddressableUnitSize,
+                           ElementViewParameterTypes...> *array,
     Stream *stream, const TextOutputOptions &options) {
   // Intentionally empty.  Overload for specific element types.
   // Avoid unused parameters error:
